@@ -30,7 +30,8 @@ func DefaultGenesisState() GenesisState {
 // error for any failed validation criteria.
 func ValidateGenesis(data GenesisState) error {
 	for _, account := range data.Accounts {
-		if account.GetPubKey().PubKey() == nil {
+		// accounts that never signed a transaction (module accounts, pure recipients) legitimately have no public key
+		if pk := account.GetPubKey(); pk != nil && pk.PubKey() == nil {
 			return fmt.Errorf("PubKey should never be nil")
 		}
 	}
